@@ -7,7 +7,7 @@ import z3
 
 from . import api, strops
 from .state import ExcInfo, Obligation, Place, State
-from .types import snth, sunit
+from .types import snth, sunit, wrap
 from .types import (TBool, TFun, TInt, TMap, TNone, TOpaque, TOpt, TRef, TSeq, TStr,
                     TTuple, TUnion, join, opt, parse_type)
 from .values import PathEnds
@@ -125,7 +125,7 @@ class ExprMixin:
             return
         claim0 = claim
         claim, skolems = skolemize(claim)
-        inst = self.instantiate_foralls(st, skolems)
+        inst = self.instantiate_foralls(st, skolems) + self.instantiate_frames(st, claim) + self.closure_instances(st, claim)
         ob = Obligation(self.fn_name, kind, label, st.pc + st.facts + inst, claim, st.trail,
                         carries=carries, info=info,
                         lineno=getattr(node, 'lineno', None))
@@ -146,11 +146,9 @@ class ExprMixin:
         strs = strs[:5]
         for t in self.extra_inst_terms:
             (ints if t.sort() == z3.IntSort() else strs if t.sort() == z3.StringSort() else []).append(t)
-        for s in skolems:
-            if s.sort() == z3.IntSort():
-                ints.append(s)
-            elif s.sort() == z3.StringSort():
-                strs.append(s)
+        # the Skolem constants of the claim come FIRST: they are the instances a proof needs
+        ints = [s for s in skolems if s.sort() == z3.IntSort()] + ints
+        strs = [s for s in skolems if s.sort() == z3.StringSort()] + strs
         if not ints and not strs:
             return ()
         isort, ssort = z3.IntSort(), z3.StringSort()
@@ -183,6 +181,38 @@ class ExprMixin:
                                 out.append(guarded(gs, z3.substitute_vars(q.body(), a, b)))
         return tuple(out)
 
+    def instantiate_frames(self, st, claim):
+        """Frame axioms `forall r < alloc: H'[r] == H[r]` (objects that existed before a loop / call
+        keep their fields) instantiated at the object references the claim reads."""
+        frames = []
+        for t in st.pc:
+            if z3.is_quantifier(t) and t.is_forall() and t.num_vars() == 1 and t.var_name(0).startswith('fr!'):
+                frames.append(t)
+        if not frames:
+            return ()
+        refs, seen, todo = [], set(), [claim]
+        while todo and len(refs) < 40:
+            x = todo.pop()
+            if x.get_id() in seen:
+                continue
+            seen.add(x.get_id())
+            if z3.is_quantifier(x):
+                continue
+            if z3.is_app(x):
+                if x.decl().kind() == z3.Z3_OP_SELECT and x.num_args() == 2 and x.arg(1).sort() == z3.IntSort():
+                    a0 = x.arg(0)
+                    name = a0.decl().name() if z3.is_app(a0) and a0.num_args() == 0 else ''
+                    if name.startswith('H') or z3.is_app(a0):
+                        r = x.arg(1)
+                        if not any(r.eq(y) for y in refs):
+                            refs.append(r)
+                todo.extend(x.children())
+        out = []
+        for q in frames:
+            for r in refs:
+                out.append(z3.substitute_vars(q.body(), r))
+        return tuple(out)
+
     def feasible(self, st, extra=None, timeout_ms=None):
         """Cheap satisfiability check of the path condition (unknown = feasible)."""
         if self.spec_depth > 0:
@@ -210,7 +240,48 @@ class ExprMixin:
         if fkey not in st.heap:
             st.heap[fkey] = z3.Const('H0_%s_%s' % (fkey[0].replace('.', '_').replace(':', '_'), fkey[1]),
                                      z3.ArraySort(z3.IntSort(), self.field_sort(ty)))
+            if fkey not in self.initial_arrays:
+                self.initial_arrays[fkey] = (st.heap[fkey], ty)
         return st.heap[fkey]
+
+    def closure_instances(self, st, claim):
+        """The initial heap is closed: every reference stored in a field (directly, or inside a
+        list of tuples) of the heap the function was entered with denotes an object that existed
+        then (< alloc0).  Instances at the references / list positions the claim talks about."""
+        if st.alloc0 is None or not self.initial_arrays:
+            return ()
+        refs, idxs, seen, todo = [], [], set(), [claim]
+        while todo:
+            x = todo.pop()
+            if x.get_id() in seen:
+                continue
+            seen.add(x.get_id())
+            if z3.is_quantifier(x) or not z3.is_app(x):
+                continue
+            k = x.decl().kind()
+            if k == z3.Z3_OP_SELECT and x.num_args() == 2 and x.arg(1).sort() == z3.IntSort():
+                if not any(x.arg(1).eq(y) for y in refs) and len(refs) < 10:
+                    refs.append(x.arg(1))
+            if k == z3.Z3_OP_SEQ_NTH and not any(x.arg(1).eq(y) for y in idxs) and len(idxs) < 6:
+                idxs.append(x.arg(1))
+            todo.extend(x.children())
+        out = []
+        arrays = [(arr, ty, st.alloc0) for (arr, ty) in self.initial_arrays.values()]
+        arrays += list(getattr(st, 'closed_arrays', ()) or ())
+        for (arr, ty, a0) in arrays:
+            if isinstance(ty, TRef):
+                for r in refs:
+                    out.append(z3.Implies(z3.And(r >= 0, r < a0), z3.And(z3.Select(arr, r) >= 0, z3.Select(arr, r) < a0)))
+            elif isinstance(ty, TSeq) and isinstance(ty.elem, TTuple):
+                for pos, it in enumerate(ty.elem.items):
+                    if not isinstance(it, TRef):
+                        continue
+                    for r in refs:
+                        sq = z3.Select(arr, r)
+                        for i in idxs:
+                            e = ty.elem.proj(snth(ty.elem, sq, i), pos)
+                            out.append(z3.Implies(z3.And(r >= 0, r < a0, i >= 0, i < z3.Length(sq)), z3.And(e >= 0, e < a0)))
+        return tuple(out)
 
     def field_sort(self, ty):
         if isinstance(ty, TTuple):
@@ -348,6 +419,21 @@ class ExprMixin:
                 self.oblige(st, z3.Not(sv.ty.is_none(sv.t)), 'safety', 'None-' + what, node=node,
                             info={'claim': '%s is not None where a %s is required' % (what, ty)})
                 return r
+            if isinstance(sv.ty, TUnion) and not isinstance(ty, TUnion):
+                # a tagged value where one particular kind is required: it must BE of that kind
+                cands = []
+                for tag, alt in sv.ty.alts:
+                    if alt == TNone:
+                        continue
+                    try:
+                        cands.append((tag, coerce(unbox(alt, sv.ty.get(tag, sv.t)), ty, self.classes)))
+                    except TypeMismatch:
+                        continue
+                if len(cands) == 1:
+                    tag, r = cands[0]
+                    self.oblige(st, sv.ty.is_tag(tag, sv.t), 'safety', 'kind-of-' + what, node=node,
+                                info={'claim': '%s has the kind %s that a %s requires (AttributeError / TypeError)' % (what, tag, ty)})
+                    return r
             if isinstance(sv.ty, TRef) and isinstance(ty, TRef) and self.classes.is_subclass(ty.cls, sv.ty.cls):
                 # downcast: the object must really be an instance of the narrower class
                 self.oblige(st, self.isinstance_term(st, sv, ty.cls), 'safety', 'isinstance-' + what, node=node,
@@ -410,6 +496,12 @@ class ExprMixin:
             n = z3.Length(container.t)
             t = z3.Concat(z3.SubSeq(container.t, 0, i), sunit(container.ty.elem, e),
                           z3.SubSeq(container.t, i + 1, n - i - 1))
+            # element-wise view of the same value (lemmas of sequences; the solvers do not find them)
+            inrange = z3.And(i >= 0, i < n)
+            st.fact(z3.Implies(inrange, z3.Length(t) == n))
+            st.fact(z3.Implies(inrange, t[i] == wrap(container.ty.elem, e)))
+            k = z3.Int('sw!k')
+            st.assume(z3.ForAll([k], z3.Implies(z3.And(inrange, k >= 0, k < n, k != i), t[k] == container.t[k])))
             return SV(container.ty, t)
         if k == 'alt':
             alt = container.ty.alt(step[1])
@@ -889,7 +981,18 @@ class ExprMixin:
                     return r
                 if r.ty.elem is TBottom:
                     return l
-                ty = l.ty if l.ty == r.ty else TSeq(join(l.ty.elem, r.ty.elem))
+                if l.ty == r.ty:
+                    ty = l.ty
+                else:
+                    j = join(l.ty.elem, r.ty.elem)
+                    if j is not None:
+                        ty = TSeq(j)
+                    else:
+                        # a list display of narrower items next to a list of tagged items
+                        try:
+                            return SV(l.ty, z3.Concat(l.t, coerce(r, l.ty, self.classes).t))
+                        except TypeMismatch:
+                            return SV(r.ty, z3.Concat(coerce(l, r.ty, self.classes).t, r.t))
                 return SV(ty, z3.Concat(coerce(l, ty).t, coerce(r, ty).t))
             if isinstance(l.ty, TTuple) and isinstance(r.ty, TTuple):
                 return SV(TTuple(l.ty.items + r.ty.items), l.t + r.t)
@@ -1015,6 +1118,8 @@ class ExprMixin:
         if isinstance(v.ty, TOpt):
             return v.ty.is_none(v.t)
         if isinstance(v.ty, TUnion):
+            if v.ty.name == 'MaxOcc':
+                return z3.BoolVal(False)       # info.Unbounded is an object, not None
             tag = v.ty.tag_of(TNone)
             return v.ty.is_tag(tag, v.t) if tag else z3.BoolVal(False)
         return z3.BoolVal(False)
@@ -1130,7 +1235,8 @@ class ExprMixin:
                 self.oblige(st, self.isinstance_term(st, base, owners[0]), 'safety', 'has-attr-' + attr, node=node,
                             info={'claim': 'object is a %s, which has attribute %s (AttributeError)' % (owners[0], attr)})
                 return self.read_field(st, SV(TRef(owners[0]), base.t), owners[0], attr, node)
-            sub_methods = [q for q in self.classes.subclasses(ty.cls) if self.classes.find_method(q, attr)[1] is not None]
+            sub_methods = [q for q in self.classes.subclasses(ty.cls)
+                           if self.classes.find_method(q, attr)[1] is not None or (q + '.' + attr) in api.REGISTRY]
             if sub_methods:
                 tops = [q for q in sub_methods if not any(q != o and self.classes.is_subclass(q, o) for o in sub_methods)]
                 if len(tops) == 1:
